@@ -1,6 +1,6 @@
 """C06 - totals conserve money: each transaction is counted once, in exactly one bucket.
 
-Exhaustive: every multiset of <= K classified transactions over a 23-element alphabet; for each
+Exhaustive: every multiset of <= K classified transactions over a 26-element alphabet; for each
 multiset every permutation and every assignment of the transactions to two data sources; the real
 analyze_transactions() is run on each arrangement and compared with the reference bucket sums and
 with every other arrangement of the same multiset.
@@ -13,7 +13,7 @@ from mc.ref import money
 
 PROPERTY = "C06"
 LEVEL = "exploration"
-RULE = ("cases = all multisets of size 1..K (K=3 quick, 4 thorough) over a 23-transaction alphabet "
+RULE = ("cases = all multisets of size 1..K (K=3 quick, 4 thorough) over a 26-transaction alphabet "
         "(5 amounts incl. 0 and both signs x 10 tag lists covering every special-tag precedence class and letter case, "
         "4 merchants (two with empty / blank raw descriptions), 2 categories, 2 months); each case runs analyze_transactions on every permutation x every "
         "2-source labelling. non-trivial = multiset with >=2 transactions that fall into >=2 different buckets or "
@@ -55,6 +55,8 @@ def _alphabet():
     out[1] = (-0.25, 0, 1, 1, 1)     # missing tags key, small credit
     # transactions whose raw description is empty / blank (a description template can produce " "): counted like any other
     out += [(100.0, 1, 2, 0, 1), (-20.5, 8, 3, 1, 0), (0.25, 2, 3, 0, 1)]
+    # amounts with more than two decimals (exact binary fractions): every total carries them in full
+    out += [(0.125, 1, 0, 0, 0), (-0.375, 8, 1, 1, 1), (10.0625, 3, 0, 1, 0)]
     return out
 
 
